@@ -63,23 +63,99 @@ package core
 //@   modifies nothing
 //@   nopanic
 
+// field read (C03): the field of that name of the struct (directly or behind a pointer), as it is now
 //@ func GetStructAttributeValue
 //@   props C03
-//@   ensures result.1 == nil
+//@   ensures [C03] field: result.1 == nil && result.0 == rv_field(ite(rv_kind(obj) == 22, rv_elem(obj), obj), fieldName)
 //@   modifies nothing
-//@   trusted reflect-based accessors pending
 
+// first result of a call (C03)
+//@ func GetRawTypeValue
+//@   props C03
+//@   ensures [C03] first: result.1 == nil && (len(rs) == 0 ==> result.0 == RV_zero()) && (len(rs) > 0 ==> result.0 == rs[0])
+//@   modifies nothing
+//@   nopanic
+
+// method call on an injected object (C03): the method is looked up by name, the arguments are coerced to the declared
+// parameter kinds (ParamsTypeChange) and passed positionally in ONE call; the call's first result is returned
+//@ func InvokeFunction
+//@   props C03
+//@   arith int unchecked
+//@   ghost ncall int = 0
+//@   ghost RSlen int = 0
+//@   ghost RS0 rv = RV_zero()
+//@   oncall ParamsTypeChange
+//@     assert [C03] coerced: ncall == 0 && arg0 == rv_method(obj, methodName) && arr(arg1) == arr(parameters) && lo(arg1) == lo(parameters) && len(arg1) == len(parameters)
+//@   oncall (reflect.Value).Call
+//@     assert [C03] positional: ncall == 0 && recv == rv_method(obj, methodName) && arr(arg0) == arr(parameters) && lo(arg0) == lo(parameters) && len(arg0) == len(parameters)
+//@     after ncall := ncall + 1
+//@     after RSlen := len(callresult)
+//@     after RS0 := ite(len(callresult) > 0, callresult[0], RV_zero())
+//@   ensures [C03] notfound: !rv_valid(rv_method(obj, methodName)) ==> result.1 != nil && ncall == 0 && result.0 == RV_zero()
+//@   ensures [C03] called: rv_valid(rv_method(obj, methodName)) ==> ncall == 1 && result.1 == nil && (RSlen == 0 ==> result.0 == RV_zero()) && (RSlen > 0 ==> result.0 == RS0)
+//@   modifies frame rulerun, elems(parameters)
+
+// field write (C03): the field is looked up by name in the struct (directly or behind a pointer); exactly one store
+// is made into it: strings, booleans and composite kinds as they are, numbers converted to the field's class with the
+// value kept whenever representable. Assumed: the value's type is an unnamed basic type whenever it is numeric (the
+// code classifies by type NAME; named numeric types are outside what is decided).
 //@ func SetAttributeValue
 //@   props C03
-//@   ensures true
+//@   arith int unchecked
+//@   requires rv_valid(obj) && rv_valid(value)
+//@   assume (hasPrefix(rt_name(rv_typ(value)), "uint") <==> ncls(rv_kind(value)) == 2) && (hasPrefix(rt_name(rv_typ(value)), "float") <==> ncls(rv_kind(value)) == 3) && (hasPrefix(rt_name(rv_typ(value)), "int") <==> ncls(rv_kind(value)) == 1)
+//@   ghost F rv = ite(rv_kind(obj) == 22, ite(rt_kind(rt_elem(rv_typ(obj))) == 25, rv_field(rv_elem(obj), fieldName), RV_zero()), ite(rv_kind(obj) == 25, rv_field(obj, fieldName), RV_zero()))
+//@   ghost nset int = 0
+//@   oncall (reflect.Value).Set
+//@     assert [C03] asis: nset == 0 && recv == F && arg0 == value && ncls(rv_kind(F)) == 0 && rv_kind(F) != 24 && rv_kind(F) != 1
+//@     after nset := nset + 1
+//@   oncall (reflect.Value).SetString
+//@     assert [C03] string: nset == 0 && recv == F && rv_kind(F) == 24 && (rv_kind(value) == 24 ==> arg0 == rv_str(value))
+//@     after nset := nset + 1
+//@   oncall (reflect.Value).SetBool
+//@     assert [C03] bool: nset == 0 && recv == F && rv_kind(F) == 1 && arg0 == rv_bool(value)
+//@     after nset := nset + 1
+//@   oncall (reflect.Value).SetInt
+//@     assert [C03] tointeger: nset == 0 && recv == F && 2 <= rv_kind(F) && rv_kind(F) <= 6 && (ncls(rv_kind(value)) == 1 ==> arg0 == rv_int(value)) && (ncls(rv_kind(value)) == 2 && inK(rv_int(value), 6) ==> arg0 == rv_int(value)) && (ncls(rv_kind(value)) == 3 && inK(f2n(rv_f64(value)), 6) ==> arg0 == f2n(rv_f64(value)))
+//@     after nset := nset + 1
+//@   oncall (reflect.Value).SetUint
+//@     assert [C03] tounsigned: nset == 0 && recv == F && 7 <= rv_kind(F) && rv_kind(F) <= 11 && (ncls(rv_kind(value)) == 2 ==> arg0 == rv_int(value)) && (ncls(rv_kind(value)) == 1 ==> rv_int(value) >= 0 && arg0 == rv_int(value)) && (ncls(rv_kind(value)) == 3 && inK(f2n(rv_f64(value)), 11) ==> arg0 == f2n(rv_f64(value)))
+//@     after nset := nset + 1
+//@   oncall (reflect.Value).SetFloat
+//@     assert [C03] tofloat: nset == 0 && recv == F && ncls(rv_kind(F)) == 3 && (ncls(rv_kind(value)) == 3 ==> fsame(arg0, rv_f64(value))) && (ncls(rv_kind(value)) == 1 || ncls(rv_kind(value)) == 2 ==> fsame(arg0, n2f(rv_int(value))))
+//@     after nset := nset + 1
+//@   oncall (reflect.Value).SetComplex
+//@     after nset := nset + 1
+//@   ensures [C03] missing: F == RV_zero() ==> result != nil && nset == 0
+//@   ensures [C03] unsettable: F != RV_zero() && !rv_canset(F) ==> result != nil && nset == 0
+//@   ensures [C03] stored: result == nil ==> nset == 1 && F != RV_zero() && rv_canset(F)
+//@   ensures [C03] refused: result != nil ==> nset == 0
 //@   modifies nothing
-//@   trusted reflect-based accessors pending
 
+// assignment through an injected pointer to a scalar (C03): exactly one store into the pointee; same kind: the value
+// itself; otherwise across the integer / unsigned / float classes with the value kept whenever it is representable
+// (negative -> unsigned is refused). Host memory is outside the heap model: the stores are monitored.
 //@ func SetSingleValue
 //@   props C03
-//@   ensures true
+//@   arith int unchecked
+//@   ghost V rv = ite(rv_kind(obj) == 22 && rv_kind(value) == 22, rv_elem(value), value)
+//@   ghost nset int = 0
+//@   oncall (reflect.Value).Set
+//@     assert [C03] samekind: nset == 0 && recv == rv_elem(obj) && arg0 == V && rv_kind(rv_elem(obj)) == rv_kind(V)
+//@     after nset := nset + 1
+//@   oncall (reflect.Value).SetInt
+//@     assert [C03] tointeger: nset == 0 && recv == rv_elem(obj) && (ncls(rv_kind(V)) == 1 ==> arg0 == rv_int(V)) && (ncls(rv_kind(V)) == 2 && inK(rv_int(V), 6) ==> arg0 == rv_int(V)) && (ncls(rv_kind(V)) == 3 && inK(f2n(rv_f64(V)), 6) ==> arg0 == f2n(rv_f64(V)))
+//@     after nset := nset + 1
+//@   oncall (reflect.Value).SetUint
+//@     assert [C03] tounsigned: nset == 0 && recv == rv_elem(obj) && (ncls(rv_kind(V)) == 2 ==> arg0 == rv_int(V)) && (ncls(rv_kind(V)) == 1 ==> rv_int(V) >= 0 && arg0 == rv_int(V)) && (ncls(rv_kind(V)) == 3 && inK(f2n(rv_f64(V)), 11) ==> arg0 == f2n(rv_f64(V)))
+//@     after nset := nset + 1
+//@   oncall (reflect.Value).SetFloat
+//@     assert [C03] tofloat: nset == 0 && recv == rv_elem(obj) && (ncls(rv_kind(V)) == 3 ==> fsame(arg0, rv_f64(V))) && (ncls(rv_kind(V)) != 3 ==> fsame(arg0, n2f(rv_int(V))))
+//@     after nset := nset + 1
+//@   ensures [C03] stored: result == nil ==> nset == 1 && rv_kind(obj) == 22
+//@   ensures [C03] refused: result != nil ==> nset == 0
+//@   ensures [C03] accepts: rv_kind(obj) == 22 && (rv_kind(rv_elem(obj)) == rv_kind(V) || (ncls(rv_kind(rv_elem(obj))) != 0 && rv_kind(rv_elem(obj)) != 12 && ncls(rv_kind(V)) != 0 && rv_kind(V) != 20 && !(ncls(rv_kind(rv_elem(obj))) == 2 && ncls(rv_kind(V)) == 1 && rv_int(V) < 0) && !(ncls(rv_kind(rv_elem(obj))) == 2 && ncls(rv_kind(V)) == 3 && !fle(fz(), rv_f64(V))))) ==> result == nil
 //@   modifies nothing
-//@   trusted reflect-based accessors pending
 
 // element / key coercion for containers (C03): within a numeric class the value is converted to the target kind
 // (fit / ffit: cut to the target's width, as a Go conversion does); a value of the target's kind is passed unchanged
@@ -94,4 +170,26 @@ package core
 //@   ensures [C03] floats: rv_kind(newValue) != rt_kind(toKind) && ncls(rv_kind(newValue)) == 3 && ncls(rt_kind(toKind)) == 3 ==> rv_kind(result.0) == rt_kind(toKind) && fsame(rv_f64(result.0), ffit(rv_f64(newValue), rt_kind(toKind)))
 //@   ensures [C03] other: ncls(rt_kind(toKind)) == 0 || rt_kind(toKind) == 12 ==> result.0 == newValue
 //@   modifies nothing
+
+//@ func getNumType
+//@   props C03
+//@   ensures [C03] class: ncls(rv_kind(param)) != 0 ==> result == ncls(rv_kind(param))
+//@   modifies nothing
+
+// argument coercion before reflect.Call (C03): every argument whose parameter has a numeric kind is converted to that
+// kind (argConv); all other arguments and the slice itself are unchanged
+//@ func ParamsTypeChange
+//@   props C03
+//@   arith int unchecked
+//@   requires rv_valid(f) && (rt_kind(rv_typ(f)) == 19 || (rt_kind(rv_typ(f)) == 22 && rt_kind(rt_elem(rv_typ(f))) == 19))
+//@   ghost TF = ite(rt_kind(rv_typ(f)) == 22, rt_elem(rv_typ(f)), rv_typ(f))
+//@   ensures [C03] sameslice: arr(result) == arr(params) && lo(result) == lo(params) && len(result) == len(params)
+//@   ensures [C03] converted: forall qa :: lo(params) <= qa && qa < lo(params) + rt_numin(TF) && qa < hi(params) ==> argConv(old(at(params, qa)), at(params, qa), rt_kind(rt_in(TF, qa - lo(params))))
+//@   ensures [C03] rest: forall qa :: lo(params) + rt_numin(TF) <= qa && qa < hi(params) ==> at(params, qa) == old(at(params, qa))
+//@   modifies elems(params)
+//@   loop 0 invariant range: 0 <= i && i <= plen && plen == rt_numin(TF) && tf == TF && tf != nil
+//@   loop 0 invariant done: forall qa :: lo(params) <= qa && qa < lo(params) + i && qa < hi(params) ==> argConv(old(at(params, qa)), at(params, qa), rt_kind(rt_in(TF, qa - lo(params))))
+//@   loop 0 invariant todo: forall qa :: lo(params) + i <= qa && qa < hi(params) ==> at(params, qa) == old(at(params, qa))
+//@   loop 0 decreases plen - i
+//@   loopwrites params
 
